@@ -23,20 +23,20 @@ type inviteHandler struct {
 
 func (h inviteHandler) HandleMessage(msg stanza.Message, t xmlstream.TokenReadEncoder) error {
 	d := xml.NewTokenDecoder(t)
-	// Pop the <message> token.
-	_, err := d.Token()
-	if err != nil {
-		return err
-	}
-	var x Invitation
-	err = d.Decode(&x)
+	// The reader replays the whole message and the invitation may be preceded
+	// by other payloads (eg. a body or a mediated invitation), so pick it by
+	// name instead of decoding whatever child comes first.
+	m := struct {
+		stanza.Message
+		X Invitation `xml:"jabber:x:conference x"`
+	}{}
+	err := d.Decode(&m)
 	if err != nil {
 		return err
 	}
 
-	if h.F != nil {
-		h.F(x)
-		return nil
+	if h.F != nil && m.X.XMLName == directName {
+		h.F(m.X)
 	}
 	return nil
 }
